@@ -83,6 +83,8 @@ def label_to_event(label):
         return dict(op="VrbMode", l=0, k="", a=a[0], b=0)
     if name == "CloseW":
         return dict(op="CloseW", l=a[0], k="", a=a[1], b=0)
+    if name in ("LogNest", "EachNew"):
+        return dict(op=name, l=a[0], k="", a=a[1], b=0)
     if name == "MkHandler":
         return dict(op="MkHandler", l=a[0], k="", a=a[1], b=0)
     if name == "HEmit":
@@ -203,6 +205,11 @@ def random_behaviours(c, rng, count, depth, max_loggers):
                 # (every tenth record is bigger than any buffer or chunk size the library might use: 100 KiB)
                 beh.append(dict(op="LogF", l=l, k="big" if rng.random() < 0.1 else "", a=rng.choice(sorted(c["log_sevs"])),
                                 b=rng.randint(1, len(c["fail_sets"]))))
+            elif op == "LogNest":
+                beh.append(dict(op="LogNest", l=l, k="", a=rng.randint(1, n), b=0))
+            elif op == "EachNew":
+                beh.append(dict(op="EachNew", l=l, k="", a=rng.randint(1, n), b=0))
+                n += 1
             elif op == "CloseW":
                 beh.append(dict(op="CloseW", l=l, k="", a=rng.choice(sorted(c["log_sevs"])), b=0))
             # ids are assigned by the worker in creation order; since some creations return an
@@ -239,7 +246,7 @@ def run_core(ctx, c, invariants, properties, obs, rand_count, rand_depth, rand_l
                      (["PROPERTIES " + " ".join(properties)] if properties else []),
                      plain=dict(MaxLoggers=c["max_loggers"], InitLevel=c["init_level"], MaxList=c.get("max_list", 2),
                                 MaxArgs=c.get("max_args", 0), MaxSaved=c.get("max_saved", 2), MaxHandlers=c.get("max_handlers", 1), FileBase=41))
-    dot = os.path.join(ctx.scratch, "graph")
+    dot = os.path.join(ctx.scratch, "graph" + tag)
     r = ctx.model_check("MC", "MC.cfg", files={"MC.tla": mc, "MC.cfg": cfg},
                         extra=["-dump", "dot,actionlabels", dot] if dump else [], name="core-mc" + tag)
     behaviours = []
@@ -276,10 +283,10 @@ def run_core(ctx, c, invariants, properties, obs, rand_count, rand_depth, rand_l
     def execute(behs, n_cov, env, label):
         """3. execute on the real library (in the given process environment), 4. validate with TLC, report."""
         scr = dict(script, behaviours=behs)
-        sp = os.path.join(ctx.scratch, "script%s.json" % label)
+        sp = os.path.join(ctx.scratch, "script%s%s.json" % (tag, label))
         with open(sp, "w") as fh:
             json.dump(scr, fh)
-        tp = os.path.join(ctx.scratch, "trace%s.ndjson" % label)
+        tp = os.path.join(ctx.scratch, "trace%s%s.ndjson" % (tag, label))
         ctx.run_worker(["core", sp, tp], testing=testing, timeout=1800, env=env)
         rows = read_ndjson(tp)
         bad = validate_core_trace(ctx, rc, tp, rand_loggers, name="core-trace" + tag + label)
@@ -319,7 +326,7 @@ def run_core(ctx, c, invariants, properties, obs, rand_count, rand_depth, rand_l
         # the same model under another process environment: nothing the properties speak about may depend on
         # environment variables, the number of processors or the local time zone.  A sample of the graph
         # behaviours plus all random ones.
-        step = max(1, n_cover // 150)
+        step = max(1, n_cover // 80)
         sub = behaviours[:n_cover:step] + behaviours[n_cover:]
         rows2, bad2 = execute(sub, len(behaviours[:n_cover:step]), dict(ALT_ENV), "-env")
         ctx.extra["alt_env_behaviours" + tag] = len(sub)
